@@ -16,19 +16,25 @@ Fa = ("F",)
 COMM = {"+", "*", "&", "|", "^", "==", "!="}
 
 
-def canon(e):
+_WIDTH_SENSITIVE = {"*", "+", "-", "<<", "*=", "+=", "-=", "<<="}
+
+
+def canon(e, _arith_operand=False):
     """Sort operands of commutative built-in operators (recursively)."""
     if not is_expr(e):
         return e
-    out = [e[0]] + [canon(x) if is_expr(x) else x for x in e[1:]]
+    arith = e[0] == "b" and len(e) >= 4 and e[1] in _WIDTH_SENSITIVE
+    out = [e[0]] + [canon(x, arith and i in (1, 2)) if is_expr(x) else x for i, x in enumerate(e[1:])]
     if out[0] == "b" and out[1] in COMM and len(out) >= 4:
         a, b = out[2], out[3]
         if show(a) > show(b):
             out[2], out[3] = b, a
     if out[0] == "ctor" and len(out) == 3 and isinstance(out[1], str) and out[1].endswith("iterator") and is_expr(out[2]):
         return out[2]  # iterator -> const_iterator conversions are transparent
-    if out[0] == "cast" and len(out) >= 5 and _value_preserving_cast(out[3], out[4]):
-        return out[2]  # widening integral casts of the same signedness are transparent for guard comparison
+    if out[0] == "cast" and len(out) >= 5 and _value_preserving_cast(out[3], out[4]) and not _arith_operand:
+        # widening integral casts of the same signedness are transparent for comparison - but not as the direct operand of
+        # * + - <<, where the cast decides the width the arithmetic is done in (`uint64_t(a) * b` is not `a * b`)
+        return out[2]
     return out
 
 
